@@ -27,8 +27,9 @@ PROPERTY = {
         "queue capacities are +inf or integral (a fractional float capacity c admits floor(c)+1 items: "
         "`len >= capacity` is the only test) - configuration assumption",
         "user-supplied priority key functions are arbitrary but side-effect free",
-        "pipeline-level invariants over in-flight engine events (I-work, I-reserve of DESIGN 3-C08) are not yet "
-        "under contract; this check covers the per-policy, per-model and per-handler clauses",
+        "pipeline-level invariants over in-flight engine events (I-work, I-reserve of DESIGN 3-C08) are not "
+        "under contract; this check covers the per-policy, per-model and per-handler clauses, and the bounded "
+        "stand-in `burst-work-conservation` runs real pipelines on a grid of bursts (open known finding there)",
     ],
 }
 
@@ -428,3 +429,16 @@ fn(Server, "handle_queued_event", args={"event": Ref(Event)},
         s.self._requests_rejected == s.pre(s.self)._requests_rejected + 1,
         s.self._concurrency_model._used_capacity == s.pre(s.self._concurrency_model)._used_capacity)),
     ("forwards-exactly-once-downstream-at-completion-time", _server_result)])
+
+
+# ---- bounded stand-in (labelled bounded, never counted as proved) for the pipeline-level clause "no simulated time
+# passes while an item waits and the worker has free capacity for it": it needs the in-flight control events of
+# queue -> driver -> worker (I-work of DESIGN 3-C08), which no single function owns.
+def _burst_grid(seed, tier):
+    return run_native_script("triage/c08_burst.py", tier)
+
+
+PROPERTY["bounded"] = [{"name": "burst-work-conservation",
+                        "bound": "bursts of k in {1,2,3,5} (thorough: up to 13) requests at one instant x concurrency in {1,2,3} "
+                                 "(thorough: up to 7) x hop patterns, constant service time",
+                        "fn": _burst_grid}]
